@@ -130,3 +130,17 @@ pub fn f64_matches(got: f64, want: f64, q: Q) -> bool {
         }
     }
 }
+
+/// Mean of finite doubles whose sum may overflow: the terms are scaled by 2^-12 (exact; a term that becomes
+/// subnormal is far below the resolution of the result) and the result is clamped to the range of the largest term.
+/// Returns (mean, mean of the magnitudes).
+pub fn mean_scaled(vs: &[f64]) -> (f64, f64) {
+    let sc = 2f64.powi(-12);
+    let n = vs.len() as f64;
+    debug_assert!(vs.len() <= 2048);
+    let m = vs.iter().map(|v| v * sc).sum::<f64>() / n;
+    let ma = vs.iter().map(|v| v.abs() * sc).sum::<f64>() / n;
+    let big = vs.iter().fold(0.0f64, |a, v| a.max(v.abs()));
+    let unscale = |x: f64| if x.abs() >= big * sc { big.copysign(x) } else { x / sc };
+    (unscale(m), unscale(ma))
+}
